@@ -2409,5 +2409,25 @@ func vfbDBRoundTrip(rep *vfbReporter, r *vfRand, desc, chainID string, block *ty
 			rep.viol(3, "db-roundtrip:last-commit-hash", desc)
 		}
 	}
+	// transactions by hash: the lookup entries point at this block and index (a hash that occurs
+	// twice is entered twice; the later entry wins), and the body read back carries the same list
+	rawdb.WriteTxLookupEntries(db, block)
+	last := map[common.Hash]int{}
+	for i, tx := range block.Transactions() {
+		last[tx.Hash()] = i
+	}
+	for i, tx := range block.Transactions() {
+		t2, bh, bhgt, idx := rawdb.ReadTransaction(db, tx.Hash())
+		if t2 == nil || t2.Hash() != tx.Hash() || bh != block.Hash() || bhgt != height || idx != uint64(last[tx.Hash()]) {
+			rep.viol(3, "db-roundtrip:tx-lookup", fmt.Sprintf("%s tx %d of %d: found=%v block=%x height=%d index=%d", desc, i, len(block.Transactions()), t2 != nil, bh[:4], bhgt, idx))
+			break
+		}
+	}
+	if body := rawdb.ReadBody(db, height); body == nil || len(body.Transactions) != len(block.Transactions()) {
+		rep.viol(3, "db-roundtrip:body", desc)
+	}
+	if len(block.Transactions()) > 0 {
+		o.Stat("db:tx-lookup")
+	}
 	o.Stat("db:roundtrip")
 }
